@@ -15,7 +15,7 @@ REPO = os.environ.get('VERIF_REPO', '/repo')
 
 # benign refactorings the rules refuse (exit 2, "representation not covered"; DESIGN.md 13.2): not part
 # of the corpus of variants that must stay silent
-REFUSED_BENIGN = {'G1', 'G2', 'G4'}
+REFUSED_BENIGN = {'G2', 'G4'}
 
 
 def load_mutants():
